@@ -185,6 +185,14 @@ def run_data(case):
     if key(pt.make_data_wrapper(chi)) == key(pt.make_data_wrapper(bigi)):
         viol.append({"sig": {"kind": "data-collision", "variant": "large-array-one-element-changed"},
                      "msg": f"int32 array of {bigi.size} elements: changing the last element does not change the key"})
+    # the same bytes under a dtype of the other byte order denote other values
+    for dts in (">i4", ">f8", ">c16", ">u2"):
+        be = np.arange(1, 13).astype(dts)
+        native_view = be.view(be.dtype.newbyteorder())
+        n += 1
+        if key(pt.make_data_wrapper(be)) == key(pt.make_data_wrapper(native_view)):
+            viol.append({"sig": {"kind": "data-collision", "variant": "same-bytes-other-byte-order"},
+                         "msg": f"an array of dtype {dts} and the same bytes viewed in the native byte order (other values) get one key"})
     sq = np.arange(9.0).reshape(3, 3)
     n += 1
     if key(pt.make_data_wrapper(sq)) == key(pt.make_data_wrapper(sq.T)):
